@@ -20,7 +20,8 @@ NAMES = ("visited", "seen", "stack", "path", "ancestors", "active", "expanding")
 WHOLE = {"contains", "any", "position", "find", "binary_search", "contains_key"}
 PARTIAL = {"last", "first", "get", "last_mut", "first_mut", "peek"}
 ADD = {"push", "insert", "push_back"}
-DEL = {"pop", "remove", "pop_back", "truncate", "retain"}
+DEL = {"pop", "remove", "pop_back"}
+WIPE = {"clear", "truncate", "retain", "drain", "split_off"}
 
 
 def ordered(node, depth=0):
@@ -111,7 +112,7 @@ def analyse(facts, f, self_ids):
     pos = {id(n): i for i, n in enumerate(seq)}
     best = None
     for lid, name in cols.items():
-        tests, partial, adds, dels, recs, ok_rets = [], [], [], [], [], []
+        tests, partial, adds, dels, recs, ok_rets, wipes = [], [], [], [], [], [], []
         for n in seq:
             k = n.get("k")
             if k == "If":
@@ -136,6 +137,8 @@ def analyse(facts, f, self_ids):
                     adds.append(n)
                 elif n["m"] in DEL:
                     dels.append(n)
+                elif n["m"] in WIPE:
+                    wipes.append(n)
             if k in ("Call", "MethodCall"):
                 t = n if k == "MethodCall" else n.get("f", {})
                 if (t.get("rid") or t.get("id")) in self_ids:
@@ -175,6 +178,13 @@ def analyse(facts, f, self_ids):
             elif early_ok:
                 g3 = False
                 problems.append(("G3", "an `Ok` return between push and pop leaves `%s` extended" % name, early_ok[0].get("ln")))
+        # G5: leaving one level removes exactly that level: clear() / truncate() / retain() also forget the ancestors that are
+        # still being expanded, so a later reference back to one of them is not recognised as recursion
+        if wipes and recs:
+            problems.append(("G5", "`%s` is emptied (%s) while enclosing expansions are still in progress: a later reference to an "
+                             "ancestor is not seen as recursion" % (name, wipes[0]["m"]), wipes[0].get("ln")))
+            if not dels:
+                dels = list(wipes)      # do not report the missing pop a second time
         # G4: every call back into the recursion hands on this collection; a member of the cycle that starts a fresh one
         # (`&mut vec![]`) forgets the path walked so far
         for rc in recs:
@@ -190,7 +200,7 @@ def analyse(facts, f, self_ids):
     return best
 
 
-def rule(facts, res, rule_name, comp_fns, want=("G1", "G2", "G3", "G4"), floor=1):
+def rule(facts, res, rule_name, comp_fns, want=("G1", "G2", "G3", "G4", "G5"), floor=1):
     """comp_fns: functions of the recursion cycles to look at.  Reports each failed clause of `want`."""
     import e1
     st = res.rule(rule_name, instances=0)
